@@ -678,13 +678,15 @@ func writeReplay(dir, prop string, f *failure, e *Engine) string {
 				rec["model"] = trunc(o.Result.Model, 20000)
 			}
 		}
-		if o.Result != nil && o.Result.Status == "sat" && f.Gen != nil && f.Gen.fn != nil {
+		if f.Gen != nil && f.Gen.fn != nil && o.Kind != "cover" {
+			// no solver model to replay (see replay.go): search for a concrete failing
+			// input with the function's driver, if it has one
 			rp := tryReplay(e, f, rec)
 			f.Confirmed = rp
 		}
 		if !f.Confirmed {
 			if _, ok := rec["replay"]; !ok {
-				rec["replay"] = map[string]any{"attempted": false, "why": "no concrete failing input could be constructed from the solver's answer (" + statusWhy(o) + ")"}
+				rec["replay"] = map[string]any{"attempted": false, "why": "the solver gave no counterexample (" + statusWhy(o) + ") and this function has no input-search driver under /verif/replay_drivers"}
 			}
 		}
 	}
